@@ -63,6 +63,9 @@ class C13(ProgramProperty):
         steps += [{"op": "load_reverse", "dst": 2, "data": rev}]
         steps += [init_step(3, recs)]                       # from_extended_prefix_map with dicts: see run_impl
         steps[-1]["via"] = "epm_dicts"
+        # ... and with Record objects / dicts handed over in other iterable types (generic interpreter)
+        steps += [dict(init_step(11, recs), via=rng.choice(["epm_records", "epm_dicts2", "load_epm"]),
+                       container=rng.choice(["list", "tuple", "iter", "generator", "dict_values"]))]
         ctx = []
         for k, v in bij:
             ctx.append([k, {"s": v}] if rng.random() < 0.6 else [k, {"pd": v}])
@@ -80,7 +83,9 @@ class C13(ProgramProperty):
         steps += [{"op": "load_file_pm", "dst": 6, "data": bij, "as": rng.choice(["str", "relstr"]),
                    "name": rng.choice(["pm.json", "http_prefixes.json", "ftpdata.json", "https.json", "h.json",
                                       # local files whose names look like "scheme:rest" when given as relative str
-                                      "obo:prefixes.json", "v1.2:ppm.json", "c:x.json", "file:pm.json", "urn:x:y.json"])},
+                                      "obo:prefixes.json", "v1.2:ppm.json", "c:x.json", "file:pm.json", "urn:x:y.json",
+                                      # a local file called exactly like a URL scheme
+                                      "http", "https", "ftp"])},
                   {"op": "load_file_pm", "dst": 7, "data": bij, "as": "path"},
                   {"op": "load_file_jsonld", "dst": 8, "data": ctx, "as": rng.choice(["str", "path"])},
                   {"op": "load_file_epm", "dst": 9, "records": recs, "as": rng.choice(["str", "path"])}]
@@ -88,7 +93,7 @@ class C13(ProgramProperty):
         steps += [{"op": "load_rdflib", "dst": 10, "data": rdf}]
         probes_p = gen.all_prefixes(recs)[:6]
         probes_u = [u + "1" for u in gen.all_uris(recs)[:5]]
-        for c in range(0, 11):
+        for c in range(0, 12):
             steps += [q(c, "records"), q(c, "delimiter"), q(c, "bimap")]
             for p in probes_p:
                 steps += [q(c, "expand_pair", p, "1"), q(c, "standardize_prefix", p)]
